@@ -221,6 +221,50 @@ def run(ck: Check):
                     ck.disagree("gradient of a convolution with respect to its input differs from the derivative of the per-window relaxation",
                                 dict(case, max_abs_error=err, zero_entries_autograd=int((g == 0).sum()), zero_entries_reference=int((ref == 0).sum())),
                                 signature={"layer": "conv2d", "what": "input-grad", "mode": mode, "inputs": points})
+    # Gumbel modes of a convolution: with the generator re-seeded before every forward the noise is the same draw, so the layer is one
+    # fixed smooth function of its input and its logits.  Autograd must differentiate THAT draw (also when a forward is recomputed during
+    # backward): compared with central differences of the layer's own forward under the same seed
+    from torchlogix.layers import LogicConv2d as _LC
+    for par in ("raw", "walsh"):
+        torch.manual_seed(ck.seed + 808)
+        lg = _LC(in_dim=4, device="cpu", channels=1, num_kernels=2, tree_depth=1, receptive_field_size=2, parametrization=par,
+                 weight_init="random", forward_sampling="gumbel_soft", temperature=1.0).double().train()
+        gen_g = torch.Generator().manual_seed(ck.seed + 809)
+        xg = torch.rand(1, 1, 4, 4, dtype=torch.float64, generator=gen_g).requires_grad_(True)
+        wg = lg.tree_weights[0][0]
+
+        def fwd_g(xv):
+            torch.manual_seed(4242)
+            return lg(xv)
+        yg = fwd_g(xg)
+        upg = torch.rand(yg.shape, dtype=torch.float64, generator=gen_g)
+        g_x, g_w = torch.autograd.grad(yg, [xg, wg], grad_outputs=upg)
+        with torch.no_grad():
+            def scal(xv):
+                return float((fwd_g(xv) * upg).sum())
+            x0g = xg.detach().clone()
+            ref_x = torch.zeros_like(x0g)
+            for idx in _np.ndindex(*x0g.shape):
+                xp_, xm_ = x0g.clone(), x0g.clone()
+                xp_[idx] += 1e-6
+                xm_[idx] -= 1e-6
+                ref_x[idx] = (scal(xp_) - scal(xm_)) / 2e-6
+            ref_w = torch.zeros_like(wg)
+            for idx in _np.ndindex(*wg.shape):
+                old_v = float(wg[idx])
+                wg[idx] = old_v + 1e-6
+                fp = scal(x0g)
+                wg[idx] = old_v - 1e-6
+                fm = scal(x0g)
+                wg[idx] = old_v
+                ref_w[idx] = (fp - fm) / 2e-6
+        case_g = {"layer": "conv2d", "param": par, "mode": "gumbel_soft", "what": "same-draw gradient"}
+        ck.case(case_g, nontrivial=True, kind="conv-gumbel-grad")
+        ex, ew = float((g_x - ref_x).abs().max()), float((g_w - ref_w).abs().max())
+        if not (ex <= 1e-5 * max(1.0, float(ref_x.abs().max())) and ew <= 1e-5 * max(1.0, float(ref_w.abs().max()))):
+            ck.disagree("the gradient of a convolution in a Gumbel mode is not the derivative of the forwarded draw (input / gate-logit gradient "
+                        "against central differences under the same seed)", dict(case_g, input_grad_error=ex, logit_grad_error=ew),
+                        signature={"layer": "conv2d", "what": "gumbel-grad", "param": par})
     return ck.finish()
 
 
